@@ -12,6 +12,7 @@ file. Where the unchanged code loses data the negation is proved from a closed w
   `C03_covdir_file_found_partial`; what the document holds in general is `C03_covdir_document`.
 -/
 import GrcovModel.Lemmas.WritersDocs
+import GrcovModel.Lemmas.LcovUtf8
 import GrcovModel.Lemmas.StatsListed
 import GrcovModel.Props.C05
 namespace Grcov.Props.C03
@@ -507,5 +508,49 @@ example : (match htmlPages (fun p => if p = [47, 97] then some 3 else none)
     [⟨[47, 97], [120, 47, 97, 46, 99], { lines := [(2, 7)] }⟩, ⟨[47, 98], [98, 46, 99], {}⟩, ⟨[47, 97], [47, 97, 46, 99], {}⟩] with
     | some s => (s.pages, s.dirs)
     | none => ([], [])) = ([([[120], [97, 46, 99, 46, 104, 116, 109, 108]], [-1, 7, -1])], [([120], [[97, 46, 99]])]) := by decide
+
+/-! ## HTML page rows for arbitrary source bytes -/
+
+/-- A page has one row per line of the source as `String::from_utf8_lossy(bytes).lines()` counts
+them; row `i` carries the number `i+1`, the count of line `i+1` (or "not instrumented") and the
+lossily decoded text of that line – for ANY source bytes (invalid UTF-8, NUL, BOM, CR LF, lone CR,
+no final newline): nothing stops the page early. -/
+theorem C03_html_rows_shape (src : List Nat) (lines : List (Nat × Nat)) :
+    (htmlRows src lines).length = (lossyLines src).length ∧
+    (∀ i : Nat, (htmlRows src lines)[i]? = ((lossyLines src)[i]?).map fun t => (⟨i + 1, entry lines (i + 1), t⟩ : HtmlRow)) ∧
+    (htmlRows src lines).map (·.count) = htmlCounts lines (lossyLines src).length := by
+  refine ⟨rowsFrom_length _ _ _, fun i => ?_, ?_⟩
+  · have := rowsFrom_getElem? lines 1 (lossyLines src) i
+    simpa [htmlRows, Nat.add_comm] using this
+  · have := rowsFrom_counts lines 1 (lossyLines src)
+    simpa [htmlRows, htmlCounts, Nat.add_comm] using this
+
+/-- For every source with at least as many lines (counted that way) as the highest instrumented
+line, EVERY instrumented line has its row, with its number, its exact count and its own text –
+whatever bytes the source contains before, in or after that line. -/
+theorem C03_html_rows_cover_all_lines (src : List Nat) (lines : List (Nat × Nat))
+    (hlen : lastKey lines ≤ (lossyLines src).length) (l c : Nat) (hl : 1 ≤ l)
+    (h : get? lines l = some c) :
+    ∃ t, (lossyLines src)[l - 1]? = some t ∧ (htmlRows src lines)[l - 1]? = some ⟨l, (c : Int), t⟩ := by
+  have hle : l ≤ lastKey lines := key_le_lastKey lines l (by simp [h])
+  have hlt : l - 1 < (lossyLines src).length := by omega
+  refine ⟨(lossyLines src)[l - 1], by simp [hlt], ?_⟩
+  rw [(C03_html_rows_shape src lines).2.1 (l - 1)]
+  have e : l - 1 + 1 = l := by omega
+  simp [hlt, e, entry, h]
+
+/-- a well-formed UTF-8 source is split as it is (no byte is replaced) -/
+theorem C03_html_valid_source_lines (src : List Nat) (h : Lcov.validUtf8 src = true) :
+    lossyLines src = strLines src := by
+  unfold lossyLines; rw [Lcov.utf8Lossy_of_valid src h]
+
+/-- CR LF and LF end a line, a lone CR does not, an invalid byte (0xE9 alone) becomes U+FFFD and
+the lines after it are still there; the last line needs no newline -/
+example : lossyLines [97, 13, 10, 98, 13, 99, 10, 0xE9, 100, 10, 0xFF, 10, 101] =
+    [[97], [98, 13, 99], [0xEF, 0xBF, 0xBD, 100], [0xEF, 0xBF, 0xBD], [101]] := by decide
+/-- a BOM stays in the first line; an empty line at the end counts; a final `\r` without `\n` stays -/
+example : lossyLines [0xEF, 0xBB, 0xBF, 120, 10, 10] = [[0xEF, 0xBB, 0xBF, 120], []] ∧ lossyLines [120, 13] = [[120, 13]] ∧
+    lossyLines [] = [] := by decide
+example : (htmlRows [0xC3, 10, 0, 13, 10, 122] [(2, 7), (3, 0)]).map (fun r => (r.no, r.count)) = [(1, -1), (2, 7), (3, 0)] := by decide
 
 end Grcov.Props.C03
